@@ -28,6 +28,9 @@ BLOCKS = [
     ":::{tip}\nx\n:::", "::::{note}\n:::{tip}\n:::\n::::", "- [ ] task\n- [x] done", "~~s~~", "a\\\nb", "(target)=\n# T2", "% comment", "+++ {\"a\": 1}", "+++ bad json", "\x00\ud800".encode("utf8", "surrogatepass").decode("utf8", "replace"),
     "﻿bom", "\t\ttabs", "a" * 300, "[x]: <y z>\n\n[x]", "```{note}\n---\nclass: a\n--- y\nbody\n```", "```{admonition}\n```", "```{admonition} T\n:name: [1,\n```",
     # one id used twice: attribute block on two headings, on a heading and a (x)= target, equal to the heading's own name
+    # (repaired defects, kept as regression inputs) valueless / invalid attributes, odd footnote labels, blank-leading directive bodies
+    "<div class>x</div>", "<div class=\"admonition\" name>\nx\n</div>", "![a](b){w=abc}", "![a](b){a=abc h=1}", "a[^²] b[^1]\n\n[^²]: x\n[^1]: y",
+    "a[^10] b[^x] c[^2]\n\n[^x]: x\n[^10]: y\n[^2]: z", "```{line-block}\n\n\nx\n```", "```{line-block}\n\n  a\nb\n```", "```{figure} x\n\n\n\n```", "```{target-notes}\n:name: n\n```",
     "{#x}\n# A\n\n{#x}\n# B", "{#x}\n# A\n\n(x)=\npara", "(x)=\n# A\n\n{#x}\n# B", "{#a}\n# A\n\n# a", "{#x .c}\npara\n\n{#x}\npara", "{#x}\n- l\n\n{#x}\n> q",
 ]
 FRONT = [
@@ -38,6 +41,7 @@ FRONT = [
     "---\na: !!binary aGVsbG8=\nb: !!set {x, y}\nc: [!!binary aGVsbG8=]\nd: 2001-01-01\n---\n", "---\n1: a\nnull: x\ntrue: y\n1.5: z\n? [a, b]\n: c\n---\n",
     "---\nmyst:\n  html_meta: {1: x, a: 1}\n  substitutions: {1: x}\n  url_schemes: {http: {classes: 5}}\n  heading_anchors: true\n---\n",
     "---\nauthor: [a, b]\nauthors: 1\ndate: 2020-01-01\nabstract: |\n  *x*\n\n  # h\ndedication: '```{note}\\nx\\n```'\n---\n",
+    "---\na: {2001-01-01: x}\nb: {[1, 2]: y}\n---\n", "---\nmyst:\n  heading_anchors: null\n---\n", "---\nmyst:\n  words_per_minute: 0\n---\n",
     "---\nmyst:\n  title_to_header: true\ntitle: 7\n---\n", "---\nmyst:\n  title_to_header: true\ntitle: [a]\n---\n",
 ]
 
@@ -74,7 +78,133 @@ def in_known(text, exc, ov):
         return "C03-hr-in-container"
     if "<img src>" in text and "html_image" in (ov.get("myst_enable_extensions") or []):
         return "C01-img-attr-none"
+    # a directive whose body is blank lines only: docutils' Figure.run indexes the (empty) result of parsing its content
+    if isinstance(exc, IndexError) and "directives/images.py" in tb and "first_node = node[0]" in tb:
+        return "C01-figure-blank-body"
+    # docutils' own defect (the rst parser fails the same way): a target-notes directive with a :name: option
+    if isinstance(exc, AssertionError) and 'Losing "ids" attribute' in tb and "target-notes" in text:
+        return "C01-docutils-target-notes-name"
     return None
+
+
+CFG_VALS = ["null", "0", "-1", "1", "7", "true", "''", "x", "[]", "{}", "[1]", "[x]", "{a: b}", "1.5", "[null]", "{1: 2}", "2001-01-01", "[[x]]", "{a: [1]}",
+            "{a: null}", "99999999999999999999"]
+CFG_BODY = "\n# T\n\ntext {{ k }} [l](x.md) <https://x.y> $a$ ~~s~~ [^1]\n\n[^1]: n\n\n## S\n\n- [ ] t\n\nTerm\n: def\n\n:f: v\n"
+FRONT_KEYS = ["title", "author", "authors", "date", "abstract", "dedication", "html_meta", "substitutions", "myst", "tocdepth", "orphan", "kernelspec"]
+ATTR_KEYS = ["class", "id", "w", "h", "a", "width", "height", "align", "title", "name", "start", "style", "lineno-start", "emphasize-lines", "attribution", "x"]
+ATTR_VALS = ["abc", "10", "10px", '""', "-1", "50%", "left", "1,2", "é", "0", "1-", "#"]
+ATTR_TARGETS = ["![a](b){%s}", "[s]{%s}", "`c`{%s}", "{%s}\n# H", "{%s}\npara", "{%s}\n- l", "{%s}\n1. l", "{%s}\n> q", "{%s}\n```python\nc\n```", "{%s}\n    code",
+                "{%s}\n| a |\n|---|\n| b |", "<https://x.y>{%s}", "[l](x){%s}", "{%s}\n$$a$$", "{%s}\n:::{note}\nx\n:::", "{%s}\n---", "{%s}\nTerm\n: d", "{%s}\n:f: v"]
+DIR_BODIES = ["", "x", "\nx", "\n\nx", "\n\n\nx", ":name: n\n\nx", ":class: c\nx", "---\nclass: c\n---\nx", "x\n\ny", "  x\n    y\n  z", "- a\n- b", "a | b\n--|--\nc | d",
+              "* - a\n  - b", "# H", "[^1]\n\n[^1]: n", ":unknown: 1\n\nx", "\n\n", "  ", ":name:\n", "a.txt", "| a\n|  b"]
+DIR_ARGS = ["", "x", "a.txt", "inc.md", "1", "x y z", "python", "https://x.y/i.png"]
+LABEL_CH = ["1", "²", "٣", "a", "A", "-", "_", " ", "é", "10", "007", "#", "*", "1a", "①", "Ⅷ", "½", ""]
+HTML_ATTRS = ["", " class", ' class=""', ' class="admonition"', " class=admonition", ' class="admonition note"', " src", ' src=""', ' src="a.png"', " alt", ' height="x"',
+              " width", " name", ' align="up"', " title", ' class="admonition" name', " src=a.png alt"]
+HTML_INNER = ["", "x", '<p class="title">T</p>x', "<p class>T</p>", '<div class="title"></div>', "<img src>", "\n\n# h\n\n"]
+
+
+def systematic(col, tier, rng, d):
+    """Families that vary ONE thing over a value grid (each found a defect that the vocabulary had missed): every configuration field
+    and front-matter key x YAML values of every type; every attribute key x value on every construct that takes attributes; every
+    registered docutils directive x argument x body shape (leading / trailing blank lines, option blocks, nested syntax); pairs of
+    footnote / target labels over odd characters; HTML elements x attribute forms (valueless, empty, unquoted)."""
+    import dataclasses
+    import itertools
+
+    from docutils.parsers.rst import directives as rst_directives
+
+    from myst_parser.config.main import MdParserConfig
+
+    allext = {"myst_enable_extensions": EXTS}
+    quick = tier == "quick"
+    cases = []
+    for f in dataclasses.fields(MdParserConfig):
+        if f.name == "gfm_only":
+            continue  # (needs linkify-it-py, which is not installed here: a deliberate ModuleNotFoundError)
+        for v in CFG_VALS:
+            cases.append((("config", f.name, v), f"---\nmyst:\n  {f.name}: {v}\n---\n" + CFG_BODY, allext))
+    for k in FRONT_KEYS:
+        for v in CFG_VALS:
+            cases.append((("front", k, v), f"---\n{k}: {v}\n---\n" + CFG_BODY, dict(allext, myst_title_to_header=True)))
+    for t in ATTR_TARGETS:
+        for k in ATTR_KEYS:
+            for v in ATTR_VALS:
+                cases.append((("attr", t, k, v), (t % f"{k}={v}") + "\n", allext))
+        for a in ["#i", ".c", "#i .c k=v", "#", ".", "k", "=", "k=", "#i #i", "% c"]:
+            cases.append((("attr", t, a), (t % a) + "\n", allext))
+    for n in sorted(rst_directives._directive_registry):
+        for arg in DIR_ARGS:
+            for b in DIR_BODIES:
+                cases.append((("directive", n, arg, b), f"```{{{n}}} {arg}\n{b}\n```\n", allext))
+    for a, b in itertools.product(LABEL_CH, LABEL_CH):
+        cases.append((("fn", a, b), f"x[^{a}] y[^{b}]\n\n[^{a}]: p\n[^{b}]: q\n", allext))
+        cases.append((("tgt", a, b), f"({a})=\n# {b}\n\n[](#{a}) [](#{b})\n", dict(allext, myst_heading_anchors=2)))
+    for tag in ["img", "div", "p", "span"]:
+        for a1 in HTML_ATTRS:
+            for inner in HTML_INNER:
+                cases.append((("html", tag, a1, inner), f"<{tag}{a1}>{inner}</{tag}>\n", allext))
+                cases.append((("htmli", tag, a1, inner), f"a <{tag}{a1}>{inner}</{tag}> b\n", allext))
+    # the same grid through the Sphinx front end (all extensions are in its conf.py): a seeded sample
+    sample = rng.sample(cases, 400 if quick else 6000)
+    t1 = time.time()
+    conf = f"myst_enable_extensions = {EXTS!r}\nmyst_heading_anchors = 2\nmyst_title_to_header = True\n"
+    nb = sphinx_pass(col, [text for _k, text, _ov in sample], conf)
+    col.add_bound("one-factor grids through the Sphinx front end", f"{len(sample)} documents sampled (seeded) from the grids below, one Sphinx project, "
+                  f"{nb} build(s) (bisection when a build raises)", len(sample), time.time() - t1)
+    if quick:
+        # a seeded sample of the grid (the vocabulary holds one regression input per defect these families found)
+        cases = rng.sample(cases, 1500)
+    for key, text, ov in cases:
+        col.case(key)
+        check_doc(col, text, ov, d)
+    col.add_bound("one-factor grids through the docutils front end",
+                  f"{len(cases)} documents{' (seeded sample of the grid; the thorough tier runs all of it)' if quick else ''}: configuration fields and front-matter keys x "
+                  f"{len(CFG_VALS)} YAML values; {len(ATTR_TARGETS)} attribute-taking constructs x {len(ATTR_KEYS)} keys x {len(ATTR_VALS)} values; every registered docutils "
+                  f"directive x {len(DIR_ARGS)} arguments x {len(DIR_BODIES)} body shapes; {len(LABEL_CH)}^2 footnote / target label pairs; HTML elements x attribute forms",
+                  len(cases), 0.0)
+    return len(cases) + len(sample)
+
+
+def sphinx_pass(col, docs, conf):
+    """The same documents through the Sphinx front end: one project, one document per text; when the build raises, the
+    culprits are found by bisection (a build that raises says nothing about the other documents)."""
+    from harness.sphinx_util import build
+
+    def attempt(chunk):
+        files = {"index.md": "# Index\n\n```{toctree}\n:glob:\n\nd*\n```\n"}
+        for i, text in chunk:
+            files[f"d{i:05d}.md"] = text
+        try:
+            build(files, conf=conf, builder="dummy")
+            return None
+        except RecursionError:
+            return None if len(chunk) > 1 else None
+        except BaseException as exc:  # noqa: BLE001 (Sphinx also raises SystemExit-free errors of its own: all count)
+            if isinstance(exc, (KeyboardInterrupt, MemoryError)):
+                raise
+            return exc
+
+    todo = [list(enumerate(docs))]
+    n_builds = 0
+    while todo:
+        chunk = todo.pop()
+        exc = attempt(chunk)
+        n_builds += 1
+        if exc is None:
+            continue
+        if len(chunk) == 1:
+            i, text = chunk[0]
+            tb = traceback.extract_tb(exc.__traceback__)
+            where = next((f"{os.path.basename(f.filename)}:{f.lineno}:{f.name}" for f in reversed(tb) if "myst_parser" in f.filename), "?")
+            inner = exc.__cause__ or exc.__context__ or exc
+            col.fail("C01.uncaught-sphinx", {"text": text, "overrides": {}, "sphinx_conf": conf}, f"{type(exc).__name__}: {str(exc)[:150]} (innermost myst frame {where})",
+                     known=in_known(text, inner, {"myst_enable_extensions": EXTS}) or in_known(text, exc, {"myst_enable_extensions": EXTS}))
+            continue
+        mid = len(chunk) // 2
+        todo.append(chunk[:mid])
+        todo.append(chunk[mid:])
+    return n_builds
 
 
 def rand_config(rng):
@@ -119,6 +249,7 @@ def run(tier, seed, extra):
             col.case(("front", f))
             check_doc(col, f + "\n# T\n\n{{ key }}\n", allext, d)
             cnt += 1
+        cnt += systematic(col, tier, rng, d)
         n = 250 if tier == "quick" else 6000
         for _ in range(n):
             parts = [rng.choice(BLOCKS) for _ in range(rng.randint(1, 6))]
@@ -136,6 +267,14 @@ def run(tier, seed, extra):
             col.case(("soup", text))
             check_doc(col, text, rand_config(rng), d)
             cnt += 1
+        t1 = time.time()
+        sdocs = [b + "\n" for b in BLOCKS] + [f + "\n# T\n\n{{ key }}\n" for f in FRONT]
+        conf = f"myst_enable_extensions = {EXTS!r}\nmyst_substitutions = {{'key': 'v', 'key2': '{{{{ key2 }}}}'}}\nmyst_heading_anchors = 3\n"
+        nb = sphinx_pass(col, sdocs, conf)
+        col.add_bound("Sphinx front end: reading the same vocabulary never raises",
+                      f"{len(sdocs)} documents (every vocabulary block and front-matter form, all extensions) in one Sphinx project, dummy builder; "
+                      f"{nb} build(s) (bisection when a build raises)", len(sdocs), time.time() - t1)
+        cnt += len(sdocs)
         col.add_bound("docutils front end: parse + standard transforms never raise",
                       f"{cnt} documents: every vocabulary block alone x {{no, all}} extensions; {len(FRONT)} front-matter forms; "
                       f"{n} random compositions x random valid configurations (extension subsets, commonmark mode, security settings, "
@@ -148,6 +287,9 @@ def run(tier, seed, extra):
 
 
 def replay(col, case, check):
+    if case.get("sphinx_conf") is not None:
+        sphinx_pass(col, [case["text"]], case["sphinx_conf"])
+        return
     d = tempfile.mkdtemp(prefix="c01-")
     try:
         make_files(d)
